@@ -371,11 +371,11 @@ func (w *World) Target(name string) (pkg int, class string, ok bool) {
 		if _, imp := w.Pkgs[c].Imp[k][name]; imp {
 			return c, "new", false
 		}
-		for _, q := range w.Pkgs[c].Uses {
-			if w.Pkgs[q].Exists && w.Pkgs[q].Exp[name] != No {
-				return c, "new", false // accessible symbol without a definition: CL would define it in q
-			}
-		}
+		// A used package may export the name without defining it. CL would
+		// define the accessible symbol in that package; the statement ("resolves
+		// to nothing, so the definition is the package's own") and slip since
+		// 4c81ce2 (placeholders are not handed to users) make it the current
+		// package's own: judged that way, class qualifier +used-exports-undefined.
 		return c, "new", true
 	}
 	return c, "ambiguous", false
@@ -468,6 +468,12 @@ func (w *World) Classify(op Op) (class string, ok bool) {
 		}
 		switch cls {
 		case "new":
+			for _, q := range w.Pkgs[c].Uses {
+				if w.Pkgs[q].Exists && w.Pkgs[q].Exp[op.N] != No {
+					cls += "+used-exports-undefined"
+					break
+				}
+			}
 			if w.formerlyExported(c, op.N) {
 				cls += "+formerly-exported-name"
 			}
